@@ -48,7 +48,7 @@ package asm
 //@   ensures !isnil(a.code) ==> all(j, int, 0 <= j && j < len(d) ==> a.code[old(a.n)+j] == d[j])
 //@   ensures all(j, int, 0 <= j && j < len(a.code) && (j < old(a.n) || j >= old(a.n)+len(d)) ==> a.code[j] == old(a.code[j]))
 //@   ensures isnil(ret2)
-//@   assigns a.n, a.code
+//@   assigns a.n, a.code[:]
 
 //@ func (*Emitter).EmitBytes
 //@   property C19 C15
@@ -63,23 +63,29 @@ package asm
 //@   ensures all(j, int, 0 <= j && j < len(a.code) && (j < old(a.n) || j >= old(a.n)+len(b)) ==> a.code[j] == old(a.code[j]))
 //@   ensures a.flagsTracker == old(a.flagsTracker)
 //@   ensures !a.generateText ==> len(a.lines) == old(len(a.lines)) && a.baseSet == old(a.baseSet)
-//@   ensures a.generateText ==> !a.baseSet && len(a.lines) == EB_L0(a)+(len(b)+15)/16
+//@   ensures a.generateText ==> !a.baseSet && len(a.lines) == EB_L0(a)+(len(b)+15)>>4
+//@   ensures a.generateText ==> (len(b) > 0 ==> len(a.lines) > EB_L0(a)) && (len(b) == 0 ==> len(a.lines) == EB_L0(a))
 //@   ensures all(k, int, 0 <= k && k < old(len(a.lines)) ==> a.lines[k] == old(a.lines[k]))
 //@   ensures a.generateText && old(a.baseSet) ==> LT(a, old(len(a.lines))) == 6 && BC(a, old(len(a.lines))) == 0 && a.lines[old(len(a.lines))].address == old(a.address)
-//@   ensures a.generateText ==> all(j, int, 0 <= j && j < (len(b)+15)/16 ==> LT(a, EB_L0(a)+j) == 7 && a.lines[EB_L0(a)+j].address == old(a.address)+uint32(16*j) && BC(a, EB_L0(a)+j) == ite(16*j+16 <= len(b), 16, len(b)-16*j))
-//@   ensures a.generateText && old(TILES(a)) ==> TILES_A(a)
-//@   ensures a.generateText && old(TILES(a)) ==> TILES_L(a)
-//@   ensures a.generateText && old(TILES(a)) ==> TILES_C(a)
-//@   ensures a.generateText && old(TILES(a)) ==> TILES_E(a)
-//@   assigns a.n, a.code, a.address, a.lines, a.baseSet
+//@   ensures a.generateText ==> all(k, int, EB_L0(a) <= k && k < len(a.lines) ==> LT(a, k) == 7 && 1 <= BC(a, k) && BC(a, k) <= 16 && (k < len(a.lines)-1 ==> BC(a, k) == 16) && 16*(k-EB_L0(a))+BC(a, k) <= len(b))
+//@   ensures a.generateText ==> all(k, int, EB_L0(a) <= k && k < len(a.lines) ==> (k == EB_L0(a) ==> a.lines[k].address == old(a.address)) && (k > EB_L0(a) ==> a.lines[k].address == a.lines[k-1].address+16))
+//@   ensures a.generateText && old(EB_PRE(a)) && len(b) <= 0x1000000 ==> all(k, int, EB_L0(a) <= k && k < len(a.lines) ==> int(a.lines[k].address-a.base) == old(a.n)+16*(k-EB_L0(a)))
+//@   ensures a.generateText && len(a.lines) > EB_L0(a) ==> a.lines[len(a.lines)-1].address+uint32(BC(a, len(a.lines)-1)) == a.address
+//@   assigns a.n, a.code[:], a.address, a.lines, a.baseSet
 //@   loop 1 invariant builderlen(s) >= 3 && (builderlen(s) > 3) == ((rangeindex+1)&15 != 0) && blen == len(b)
-//@   loop 1 invariant int(cl.asmLineType) == 7 && cl.address == a.address+uint32((rangeindex+1)&^15) && cl.byteCount == len(b)-((rangeindex+1)&^15)
-//@   loop 1 invariant !a.baseSet && len(a.lines) == EB_L0(a)+(rangeindex+1)/16
+//@   loop 1 invariant int(cl.asmLineType) == 7
+//@   loop 1 invariant cl.address == a.address+uint32((rangeindex+1)&^15)
+//@   loop 1 invariant cl.byteCount == len(b)-((rangeindex+1)&^15)
+//@   loop 1 invariant !a.baseSet && len(a.lines) == EB_L0(a)+(rangeindex+1)>>4
 //@   loop 1 invariant all(k, int, 0 <= k && k < old(len(a.lines)) ==> a.lines[k] == old(a.lines[k]))
 //@   loop 1 invariant old(a.baseSet) ==> LT(a, old(len(a.lines))) == 6 && BC(a, old(len(a.lines))) == 0 && a.lines[old(len(a.lines))].address == a.address
-//@   loop 1 invariant all(j, int, 0 <= j && j < (rangeindex+1)/16 ==> LT(a, EB_L0(a)+j) == 7 && a.lines[EB_L0(a)+j].address == a.address+uint32(16*j) && BC(a, EB_L0(a)+j) == 16)
+//@   loop 1 invariant all(k, int, EB_L0(a) <= k && k < len(a.lines) ==> LT(a, k) == 7 && BC(a, k) == 16 && 16*(k-EB_L0(a))+16 <= (rangeindex+1)&^15)
+//@   loop 1 invariant all(k, int, EB_L0(a) <= k && k < len(a.lines) ==> (k == EB_L0(a) ==> a.lines[k].address == a.address) && (k > EB_L0(a) ==> a.lines[k].address == a.lines[k-1].address+16))
+//@   loop 1 invariant old(EB_PRE(a)) && len(b) <= 0x1000000 ==> all(k, int, EB_L0(a) <= k && k < len(a.lines) ==> int(a.lines[k].address-a.base) == a.n+16*(k-EB_L0(a)))
+//@   loop 1 invariant len(a.lines) > EB_L0(a) ==> a.lines[len(a.lines)-1].address+16 == cl.address
 //@   loop 1 modifies a.lines, s, cl
 //@ define EB_L0(a) (old(len(a.lines))+ite(old(a.baseSet), 1, 0))
+//@ define EB_PRE(a) (!isnil(a.code) && 0 <= a.n && a.n <= len(a.code) && len(a.code) <= 0x1000000 && a.address-a.base == uint32(a.n))
 
 //@ func (*Emitter).Label
 //@   property C19 C06
@@ -144,7 +150,7 @@ package asm
 //@   ensures all(k, string, has(a.danglingU16, k) == (old(has(a.danglingU16, k)) || has(e.danglingU16, k)) && (has(e.danglingU16, k) ==> len(a.danglingU16[k]) == len(e.danglingU16[k])))
 //@   ensures all(k, string, all(j, int, has(e.danglingU16, k) && 0 <= j && j < len(e.danglingU16[k]) ==> a.danglingU16[k][j] == e.danglingU16[k][j]))
 //@   ensures all(k, string, all(j, int, !has(e.danglingU16, k) ==> len(a.danglingU16[k]) == old(len(a.danglingU16[k])) && a.danglingU16[k][j] == old(a.danglingU16[k][j])))
-//@   assigns a.n, a.code, a.address, a.base, a.baseSet, a.flagsTracker, a.lines, a.labels, a.danglingS8, a.danglingU16
+//@   assigns a.n, a.code[:], a.address, a.base, a.baseSet, a.flagsTracker, a.lines, a.labels, a.danglingS8, a.danglingU16
 //@   loop 1 invariant all(k, string, visited(1, k) ==> has(e.labels, k))
 //@   loop 1 invariant all(k, string, has(a.labels, k) == (old(has(a.labels, k)) || visited(1, k)) && (visited(1, k) ==> a.labels[k] == e.labels[k]) && (!visited(1, k) ==> a.labels[k] == old(a.labels[k])))
 //@   loop 1 modifies a.labels
@@ -1535,7 +1541,7 @@ package asm
 //@ define LINEOK(a, k) (0 <= LT(a, k) && LT(a, k) <= 9 && 0 <= BC(a, k) && BC(a, k) <= 16 && (LT(a, k) == 0 ==> BC(a, k) == 1) && (LT(a, k) == 1 || LT(a, k) == 2 ==> BC(a, k) == 2) && (LT(a, k) == 3 || LT(a, k) == 4 ==> BC(a, k) == 3) && (LT(a, k) == 5 ==> BC(a, k) == 4) && (LT(a, k) == 7 ==> BC(a, k) >= 1) && (LT(a, k) == 6 || LT(a, k) >= 8 ==> BC(a, k) == 0) && a.lines[k].address-a.base <= uint32(a.n) && int(a.lines[k].address-a.base)+BC(a, k) <= a.n)
 //@ define TILES_A(a) (!isnil(a.code) && 0 <= a.n && a.n <= len(a.code) && len(a.code) <= 0x1000000 && a.address-a.base == uint32(a.n))
 //@ define TILES_L(a) all(k, int, 0 <= k && k < len(a.lines) ==> LINEOK(a, k))
-//@ define TILES_C(a) all(k, int, 0 <= k && k+1 < len(a.lines) ==> a.lines[k+1].address == a.lines[k].address+uint32(BC(a, k)))
+//@ define TILES_C(a) all(k, int, 0 <= k && k < len(a.lines)-1 ==> a.lines[k+1].address == a.lines[k].address+uint32(BC(a, k)))
 //@ define TILES_E(a) ((len(a.lines) > 0 ==> a.lines[0].address == a.base && a.lines[len(a.lines)-1].address+uint32(BC(a, len(a.lines)-1)) == a.address) && (len(a.lines) == 0 ==> a.n == 0))
 //@ define TILES(a) (TILES_A(a) && TILES_L(a) && TILES_C(a) && TILES_E(a))
 
